@@ -270,8 +270,8 @@ func buildChain(e *model.Env, c c17Case, n *model.Node) (z.ZogSchema, reflect.Ty
 }
 
 func canonParams(p map[string]any) string {
-	if p == nil {
-		return "nil"
+	if len(p) == 0 {
+		return "nil" // no params: whether as a nil or as an empty map is not part of any statement
 	}
 	ks := make([]string, 0, len(p))
 	for k := range p {
@@ -463,6 +463,9 @@ func genC17(rt *rapid.T, mode string) c17Case {
 			case "params":
 				o.HasParams = true
 				o.Params = map[string]string{rapid.SampledFrom([]string{"k1", "min"}).Draw(rt, "pk"): "v"}
+				if rapid.IntRange(0, 3).Draw(rt, "emptyparams") == 0 {
+					o.Params = nil // Params(map[string]any{}): this test carries no params at all
+				}
 			}
 		}
 		if o.Msg != "" && o.MsgFunc != "" {
